@@ -24,7 +24,7 @@ TICKS = (1e-6, 1e-5, 1e-4, 1e-3, 1e-2)
 def gen_scenario(rng, *, family='well', cyclic=False, init_env=False,
                  max_tasks=9, init_statuses=('DONE', 'DONE', 'FAILED',
                                              'SKIPPED'),
-                 calls=1, start_fault=False):
+                 calls=1, start_fault=False, second_graph=False):
     '''Draw one scheduler scenario.
 
     family: 'well' (ok/raise/FAILED), 'malformed' (adds malformed returns),
@@ -106,6 +106,24 @@ def gen_scenario(rng, *, family='well', cyclic=False, init_env=False,
         # object): with the environment the first call returned, or afresh
         scn['calls'] = calls
         scn['second_env'] = rng.choice(('returned', 'fresh'))
+    if second_graph and ntask >= 2:
+        # the same task objects are scheduled a second time on the same
+        # backend object, by a new Scheduler, from an empty environment, with
+        # a few more dependencies than the first time
+        scn['calls'] = 2
+        scn['second_env'] = 'fresh'
+        if scn['graph_api'] == 'nested':
+            scn['graph_api'] = 'add'
+            scn.pop('group', None)
+        extra = []
+        for _ in range(rng.choice((1, 2, 3))):
+            i = rng.randrange(1, ntask)
+            j = rng.randrange(0, i)
+            if j in tasks[i]['hard'] or j in tasks[i]['soft'] or \
+                    any(e[0] == i and e[1] == j for e in extra):
+                continue
+            extra.append([i, j, 'soft' if rng.random() < 0.3 else 'hard'])
+        scn['edges2'] = extra
     if start_fault:
         # the k-th worker thread cannot be started
         scn['fail_thread_start'] = rng.randrange(1, scn['workers'] + 1)
@@ -330,18 +348,36 @@ def status_name(val):
     return repr(val)
 
 
-def build_tasks(scn, mods, recorder, run_tag='r', run_no=0):
-    '''Create fresh probe tasks for the scenario.  Returns the task list.'''
+def direct_deps(scn, call=0):
+    '''Ground truth: direct dependencies (hard or soft) of every task in the
+    graph used by the given call of schedule().'''
+    direct = [set(t['hard']) | set(t['soft']) for t in scn['tasks']]
+    if call > 0:
+        for i, j, _kind in scn.get('edges2', []):
+            direct[i].add(j)
+    return [sorted(d) for d in direct]
+
+
+def build_tasks(scn, mods, recorder, run_tag='r', run_no=0, state=None):
+    '''Create fresh probe tasks for the scenario.  Returns the task list.
+    ``state`` (optional): {'call': n} updated by the caller between calls of
+    schedule(); the probes look at the dependencies of the current call.'''
     task_mod, py_mod = mods['task'], mods['pythontask']
     status_enum = task_mod.TaskStatus
     specs = scn['tasks']
-    direct = [sorted(set(t['hard']) | set(t['soft'])) for t in specs]
+    state = state if state is not None else {'call': 0}
+    per_call = {}
     objs = [None] * len(specs)
     rank = node_order(scn)
 
     def body(i, env):
         sim = core.cur_sim()
         obs = []
+        call = state['call']
+        if call not in per_call:
+            per_call[call] = direct_deps(scn, call)
+        direct = per_call[call]
+        run_no = call
         for j in direct[i]:
             dname = specs[j]['name']
             try:
@@ -506,7 +542,8 @@ def run_scenario(scn, chooser, *, max_steps=200000):
     holder = {}
 
     def main():
-        objs = build_tasks(scn, mods, recorder)
+        state = {'call': 0}
+        objs = build_tasks(scn, mods, recorder, state=state)
         hard, soft = build_graphs(scn, mods, objs)
         if scn.get('defaults') and not scn.get('init_env'):
             if any(t['soft'] for t in scn['tasks']):
@@ -533,9 +570,22 @@ def run_scenario(scn, chooser, *, max_steps=200000):
             got = sched.schedule(env=env, config=config)
         for _ in range(scn.get('calls', 1) - 1):
             holder['first_returned_env'] = got is env
+            state['call'] += 1
             if scn.get('second_env') == 'fresh':
                 env = initial_env(scn, mods)
                 holder['env'] = env
+            if 'edges2' in scn:
+                # a new Scheduler on the SAME backend object, same tasks,
+                # graphs with additional edges
+                scn2 = dict(scn, tasks=[dict(t) for t in scn['tasks']])
+                for i, j, kind in scn['edges2']:
+                    scn2['tasks'][i][kind] = scn2['tasks'][i][kind] + [j]
+                    (objs[i].depends_on if kind == 'hard'
+                     else objs[i].soft_depends_on).add(objs[j])
+                hard2, soft2 = build_graphs(scn2, mods, objs)
+                sched = mods['scheduler'].Scheduler(
+                    hard_graph=hard2, soft_graph=soft2,
+                    backend=holder['backend'])
             sim.mark('schedule-call')
             got = sched.schedule(env=env, config=config)
         return got
@@ -595,10 +645,12 @@ def oracle_c01(scn, res):
     execs_by_task = {}
     for rec in res.execs:
         execs_by_task.setdefault(rec['task'], []).append(rec)
+    last_call = max((rec['run'] for rec in res.execs), default=0)
     for rec in res.execs:
         i = rec['task']
         for j, stat, miss in rec['obs']:
-            dep_execs = execs_by_task.get(j, [])
+            dep_execs = [d for d in execs_by_task.get(j, [])
+                         if d['run'] == rec['run']]
             if stat not in FINAL:
                 viol.append(('dep-not-final',
                              'dep-not-final:%s' % stat,
@@ -616,6 +668,16 @@ def oracle_c01(scn, res):
                               'enter_step': rec['enter_step'],
                               'dep_exec': [(d['enter_step'], d['exit_step'])
                                            for d in running]}))
+                continue
+            final = res.statuses.get(j)
+            if terminated_normally(res) and res.main_exc is None and \
+                    rec['run'] == last_call and \
+                    final is not None and final != stat:
+                # "final" means final: what the task saw must still be the
+                # dependency's state when the run is over
+                viol.append(('dep-not-final', 'dep-status-changed-after-start',
+                             {'task': specs[i]['name'], 'dep': specs[j]['name'],
+                              'seen_at_start': stat, 'at_the_end': final}))
                 continue
             if stat == 'DONE' and miss and dep_execs:
                 # (a dependency that is DONE from an earlier run and was not
@@ -742,6 +804,10 @@ def run_seed(seed, gen_kwargs):
 
 def _flat(new):
     '''Shrunk scenarios are built node by node from the flat relation.'''
+    if 'edges2' in new:
+        ntask = len(new['tasks'])
+        new['edges2'] = [e for e in new['edges2']
+                         if e[0] < ntask and e[1] < ntask]
     if new.get('graph_api') == 'nested':
         new['graph_api'] = 'add'
     new.pop('group', None)
@@ -763,6 +829,10 @@ def _drop_task(scn, k):
             continue
         ienv[str(idx - 1 if idx > k else idx)] = ent
     new['init_env'] = ienv
+    if 'edges2' in scn:
+        new['edges2'] = [[i - 1 if i > k else i, j - 1 if j > k else j, kind]
+                         for i, j, kind in scn['edges2']
+                         if i != k and j != k]
     return new
 
 
@@ -804,10 +874,15 @@ def shrink_candidates(scn):
         new = copy.deepcopy(scn)
         new['tick'] = 1e-4
         yield new
-    if scn.get('calls', 1) > 1:
+    if scn.get('calls', 1) > 1 and 'edges2' not in scn:
         new = copy.deepcopy(scn)
         new['calls'] = 1
         yield new
+    for k in range(len(scn.get('edges2', [])) - 1, -1, -1):
+        if len(scn['edges2']) > 1:
+            new = copy.deepcopy(scn)
+            del new['edges2'][k]
+            yield new
     if scn.get('defaults'):
         new = copy.deepcopy(scn)
         del new['defaults']
